@@ -30,9 +30,9 @@ pub struct ConcCfg {
     pub sampled_faults: bool,
     /// stale temp files (crash debris older than the age limit) are planted
     pub debris: bool,
-    /// a quarter of the runs hammer ONE key with puts/sets while the
+    /// one run in `focus` (0 = never) hammers ONE key with puts/sets while the
     /// adversary deletes it repeatedly (the link-EEXIST / touch window)
-    pub focus: bool,
+    pub focus: u64,
 }
 
 #[derive(Clone, Debug)]
@@ -103,7 +103,7 @@ pub fn run_conc(tape: &mut Tape, cfg: &ConcCfg, detail: bool) -> ConcRun {
         kn.regime = *tape.pick(&[k::ClockRegime::Micros, k::ClockRegime::Tiny, k::ClockRegime::Millis]);
     }
     let mut fs = new_fs(&kn);
-    let focus = cfg.focus && tape.draw(4) == 3;
+    let focus = cfg.focus > 0 && tape.draw(cfg.focus) == cfg.focus - 1;
     let front = *tape.pick(&cfg.fronts);
     let writer_sharded = front == 1 || (front == 2 && tape.draw(2) == 1);
     let nshards = 2 + tape.draw(3) as usize;
